@@ -1,5 +1,5 @@
 (* Bit-level lemmas used by the word and RDH proofs. *)
-From Coq Require Import List NArith ZArith Bool Lia ZifyBool ZifyN.
+From Coq Require Import List NArith ZArith Bool Lia ZifyBool ZifyN Arith.
 From FP Require Import Model.Base.
 Import ListNotations.
 Open Scope N_scope.
@@ -120,3 +120,87 @@ Proof.
     + rewrite Hk. reflexivity.
     + rewrite N.pow2_bits_false by congruence. apply andb_false_r.
 Qed.
+
+(* ---- windows of a little-endian byte string ---- *)
+Lemma le_bound bs : Forall byte_ok bs -> le bs < 2 ^ (8 * N.of_nat (length bs)).
+Proof.
+  induction 1 as [|b r Hb Hr IH]; cbn [le length].
+  - cbn. lia.
+  - unfold byte_ok in Hb.
+    replace (8 * N.of_nat (S (length r))) with (8 + 8 * N.of_nat (length r)) by lia.
+    rewrite N.pow_add_r. change (2 ^ 8) with 256. nia.
+Qed.
+
+Lemma le_split bs k : le bs = le (take k bs) + 2 ^ (8 * N.of_nat (length (take k bs))) * le (drop k bs).
+Proof.
+  revert bs; induction k as [|k IH]; intros bs.
+  - cbn [take drop le length]. change (2 ^ (8 * N.of_nat 0)) with 1. lia.
+  - destruct bs as [|b r]; cbn [take drop le length]; [change (2 ^ (8 * N.of_nat 0)) with 1; lia|].
+    rewrite (IH r) at 1.
+    replace (8 * N.of_nat (S (length (take k r)))) with (8 + 8 * N.of_nat (length (take k r))) by lia.
+    rewrite N.pow_add_r. change (2 ^ 8) with 256. lia.
+Qed.
+
+Lemma take_ok k bs : Forall byte_ok bs -> Forall byte_ok (take k bs).
+Proof. intros H; revert k; induction H as [|b r Hb Hr IH]; intros [|k]; cbn; constructor; auto. Qed.
+Lemma drop_ok k bs : Forall byte_ok bs -> Forall byte_ok (drop k bs).
+Proof. intros H; revert k; induction H as [|b r Hb Hr IH]; intros [|k]; cbn; try constructor; auto. Qed.
+
+(* x = a + 2^p * r with a < 2^p *)
+Lemma field_shift a p r j len : a < 2 ^ p -> field (a + 2 ^ p * r) (p + j) len = field r j len.
+Proof.
+  intros Ha. unfold field. rewrite N.pow_add_r, <- N.div_div by (apply N.pow_nonzero; lia).
+  rewrite N.mul_comm, N.div_add by (apply N.pow_nonzero; lia).
+  rewrite (N.div_small a) by assumption. reflexivity.
+Qed.
+
+Lemma field_trunc a p r j len : j + len <= p -> field (a + 2 ^ p * r) j len = field a j len.
+Proof.
+  intros Hj. unfold field.
+  replace (2 ^ p) with (2 ^ j * (2 ^ len * 2 ^ (p - j - len))).
+  2:{ rewrite <- !N.pow_add_r. f_equal. lia. }
+  rewrite <- N.mul_assoc.
+  rewrite (N.mul_comm (2 ^ j)), N.div_add by (apply N.pow_nonzero; lia).
+  rewrite <- N.mul_assoc, (N.mul_comm (2 ^ len)), N.mod_add by (apply N.pow_nonzero; lia).
+  reflexivity.
+Qed.
+
+Lemma field_window bs k m j len : Forall byte_ok bs -> (k + m <= length bs)%nat ->
+  j + len <= 8 * N.of_nat m ->
+  field (le bs) (8 * N.of_nat k + j) len = field (le (take m (drop k bs))) j len.
+Proof.
+  intros Hok Hlen Hj.
+  rewrite (le_split bs k).
+  assert (Hlk : length (take k bs) = k).
+  { clear -Hlen. revert bs Hlen; induction k as [|k IH]; intros [|b r] H; cbn in *; try lia. rewrite IH; lia. }
+  rewrite Hlk.
+  rewrite field_shift.
+  2:{ pose proof (le_bound (take k bs) (take_ok k bs Hok)) as Hb. rewrite Hlk in Hb. exact Hb. }
+  rewrite (le_split (drop k bs) m).
+  assert (Hlm : length (take m (drop k bs)) = m).
+  { assert (Hd : (m <= length (drop k bs))%nat).
+    { clear -Hlen. revert bs Hlen; induction k as [|k IH]; intros [|b r] H; cbn in *; try lia. apply IH; lia. }
+    clear -Hd. revert Hd. generalize (drop k bs) as l. induction m as [|m IH]; intros [|b r] H; cbn in *; try lia.
+    rewrite IH; lia. }
+  rewrite Hlm. apply field_trunc. assumption.
+Qed.
+
+Lemma field_testbit x lo len n :
+  N.testbit (field x lo len) n = (n <? len) && N.testbit x (lo + n).
+Proof.
+  unfold field. destruct (N.ltb_spec n len) as [Hlt|Hge].
+  - rewrite N.mod_pow2_bits_low by assumption. rewrite N.div_pow2_bits. cbn. f_equal. lia.
+  - rewrite N.mod_pow2_bits_high by assumption. reflexivity.
+Qed.
+
+Lemma field_field x lo len j l : j + l <= len ->
+  field (field x lo len) j l = field x (lo + j) l.
+Proof.
+  intros Hj. apply N.bits_inj; intro n.
+  rewrite !field_testbit.
+  destruct (N.ltb_spec n l) as [Hlt|Hge]; cbn; [|reflexivity].
+  destruct (N.ltb_spec (j + n) len) as [_|Hc]; [|lia]. cbn. f_equal. lia.
+Qed.
+
+Lemma land_lor_eq0 x a c : N.land x (N.lor a c) = 0 <-> N.land x a = 0 /\ N.land x c = 0.
+Proof. rewrite N.land_lor_distr_r. apply N.lor_eq_0_iff. Qed.
